@@ -29,6 +29,12 @@ def run(pid, tier, seed, replay):
     rep = vlib.Report(pid)
     key, mode, nq, nt = PLAN[pid]
     out = os.path.join(wd, mode + ".ndjson")
+    if replay and json.load(open(replay)).get("kind") == "mcrew-system":
+        import system_checks
+        files = [os.path.join(vlib.VERIF, f) for f in system_checks.MCREW_DRIVER]
+        mbin = vlib.build_overlay_test(wd, "cmd/mcrew", files)
+        system_checks.mcrew_stage(pid, tier, seed, wd, rep, mbin, acts=json.load(open(replay))["acts"])
+        return rep.finish()
     if replay and json.load(open(replay)).get("kind") in ("system", "system-stdio"):
         import system_checks
         system_checks.replay(pid, wd, rep, json.load(open(replay)))
